@@ -52,8 +52,8 @@ func avsOp(p *PRNG, cfg Config, early bool) Op {
 			op.C = op.A
 			op.D = 5 // keep the epoch identifier
 		}
-		if p.Chance(1, 8) {
-			op.M = 1 + p.Intn(3)
+		if p.Chance(1, 6) {
+			op.M = 1 + p.Intn(4)
 		}
 		if p.Chance(1, 4) {
 			op.S = "renamed"
